@@ -4,6 +4,7 @@ import (
 	"fmt"
 	"os"
 	"path/filepath"
+	"strings"
 	"time"
 
 	"mcverif/engine"
@@ -103,6 +104,12 @@ func applyShape(h crashHistory, sandbox, dir string) error {
 		return os.Link(entry, filepath.Join(out, name))
 	case "dangling-symlink":
 		return os.Symlink(filepath.Join(out, "nothing-here"), entry)
+	case "mode-0600", "mode-0664", "mode-0444", "mode-0755":
+		// the entry carries other permission bits than the store gives a new one (an operator restricted or opened it,
+		// another umask was in force when it was written)
+		var m uint32
+		fmt.Sscanf(strings.TrimPrefix(h.Shape, "mode-"), "%o", &m)
+		return os.Chmod(entry, os.FileMode(m))
 	}
 	return fmt.Errorf("unknown shape %s", h.Shape)
 }
@@ -119,6 +126,10 @@ func crashHistories(thorough bool) []crashHistory {
 		{Name: "overwrite-of-symlinked-entry", Pre: []op{{Kind: "store", Doc: "d1", ID: "a"}}, Last: op{Kind: "store", Doc: "d3", ID: "a"}, Shape: "symlink"},
 		{Name: "overwrite-of-hard-linked-entry", Pre: []op{{Kind: "store", Doc: "d1", ID: "a"}}, Last: op{Kind: "store", Doc: "d3", ID: "a"}, Shape: "hardlink"},
 		{Name: "first-store-over-dangling-symlink", Last: op{Kind: "store", Doc: "d1", ID: "a"}, Shape: "dangling-symlink"},
+		{Name: "overwrite-of-entry-with-mode-0600", Pre: []op{{Kind: "store", Doc: "d1", ID: "a"}}, Last: op{Kind: "store", Doc: "d3", ID: "a"}, Shape: "mode-0600"},
+		{Name: "overwrite-of-entry-with-mode-0664", Pre: []op{{Kind: "store", Doc: "d1", ID: "a"}}, Last: op{Kind: "store", Doc: "d3", ID: "a"}, Shape: "mode-0664"},
+		{Name: "overwrite-of-entry-with-mode-0444", Pre: []op{{Kind: "store", Doc: "d1", ID: "a"}}, Last: op{Kind: "store", Doc: "d3", ID: "a"}, Shape: "mode-0444"},
+		{Name: "overwrite-of-entry-with-mode-0755", Pre: []op{{Kind: "store", Doc: "d1", ID: "a"}}, Last: op{Kind: "store", Doc: "d3", ID: "a"}, Shape: "mode-0755"},
 		// size classes: documents of 1.5 MiB and 9 MiB, first store and over a small entry
 		{Name: "first-store-of-1.5MiB", Last: op{Kind: "store", Doc: "big-1.5MiB", ID: "a"}, Thin: true},
 		{Name: "first-store-of-9MiB", Last: op{Kind: "store", Doc: "big-9MiB", ID: "a"}, Thin: true},
